@@ -68,6 +68,8 @@ def cargo_build(pkg, profile='dev', features=None, toolchain=None, extra_env=Non
     cmd += ['build', '--offline', '-q', '-p', pkg]
     if profile == 'release':
         cmd.append('--release')
+    elif profile != 'dev':
+        cmd += ['--profile', profile]
     if features:
         cmd += ['--features', features]
     if extra_args:
@@ -108,7 +110,7 @@ def bin_path(pkg, profile='dev', target_dir=None, triple=None):
     d = target_dir or TARGET
     if triple:
         d = os.path.join(d, triple)
-    return os.path.join(d, 'release' if profile == 'release' else 'debug', pkg)
+    return os.path.join(d, 'debug' if profile == 'dev' else profile, pkg)
 
 
 def parse_engine_output(text):
